@@ -469,8 +469,52 @@ def run_decomp(spec):
             return {'nontrivial': bool(info['multi_block_leg']), 'classes': classes + ['mr' if mr else 'ml']}
 
 
+# ------------------------------------------------------------------------------------------------
+# sub-check 4: histories of truncations with error accumulation (shared-state bugs)
+
+
+@st.composite
+def history_specs(draw, tier):
+    n = draw(st.integers(2, 6))
+    return {'steps': [draw(spectrum_specs('quick')) for _ in range(n)], 'acc': [draw(st.sampled_from(['+=', '+', 'first'])) for _ in range(n)]}
+
+
+def run_history(spec):
+    from tenpy.linalg.truncation import truncate, TruncationError
+    total = None
+    total_ref = 0.
+    ov_ref = 1.
+    lossy_before_lossless = False
+    seen_lossy = False
+    for st_spec, acc in zip(spec['steps'], spec['acc']):
+        S, opts = _materialize(st_spec)
+        with warnings.catch_warnings():
+            warnings.simplefilter('ignore')
+            mask, norm_new, err = truncate(S, dict(opts))
+        eps_ref = float(np.sum(S[~mask] ** 2))
+        require(abs(err.eps - eps_ref) <= 1e-14 * max(eps_ref, 1e-300) + 1e-300, 'history-err.eps',
+                'truncation reports eps=%r but discarded weight is %r' % (err.eps, eps_ref))
+        require(abs(err.ov - (1 - 2 * eps_ref)) <= 1e-14, 'history-err.ov', '%r vs %r' % (err.ov, 1 - 2 * eps_ref))
+        if eps_ref == 0 and seen_lossy:
+            lossy_before_lossless = True
+        if eps_ref > 0:
+            seen_lossy = True
+        if total is None or acc == 'first' and total is None:
+            total = err  # the first returned error is used as accumulator, as user code commonly does
+        elif acc == '+':
+            total = total + err
+        else:
+            total += err
+        total_ref += eps_ref
+        ov_ref *= (1 - 2 * eps_ref)
+        require(abs(total.eps - total_ref) <= 1e-12 * max(1., total_ref), 'history-accumulated-eps', '%r vs %r' % (total.eps, total_ref))
+        require(abs(total.ov - ov_ref) <= 1e-12, 'history-accumulated-ov', '%r vs %r' % (total.ov, ov_ref))
+    return {'nontrivial': lossy_before_lossless}
+
+
 SUBCHECKS = [
     Sub('truncate', spectrum_specs, run_truncate, quick=16000, thorough=1500000),
     Sub('trunc_err_algebra', err_specs, run_err, quick=2000, thorough=50000),
     Sub('decomp', decomp_specs, run_decomp, quick=3000, thorough=150000),
+    Sub('history', history_specs, run_history, quick=3000, thorough=100000),
 ]
